@@ -337,6 +337,8 @@ type histRunner struct {
 	nextGen int
 	waits   []waitRec
 	ok      bool
+	// plainOnly: every instance of the history has only non-graceful servers
+	plainOnly bool
 }
 
 type waitRec struct {
@@ -416,6 +418,12 @@ func (h *histRunner) mkCfg(fail string, live *cfg) cfg {
 	g := h.nextGen
 	h.nextGen++
 	c := cfg{Gen: g, Fail: fail}
+	if h.plainOnly {
+		// instances without any graceful server: nothing can be handed over on a
+		// reload, every generation listens on a port of its own
+		c.Srvs = append(c.Srvs, fmt.Sprintf("127.0.0.1:%d plain", h.ports[g%8]))
+		return c
+	}
 	// one graceful server on a stable address (handed over on reload), one on
 	// an address that alternates, and a plain server on a fresh port per gen
 	c.Srvs = append(c.Srvs, fmt.Sprintf("127.0.0.1:%d graceful", h.ports[0]))
@@ -427,7 +435,10 @@ func (h *histRunner) mkCfg(fail string, live *cfg) cfg {
 }
 
 func runHistory(c *lib.Ctx, id int, ops []string) {
-	h := &histRunner{c: c, id: id, ops: ops, ok: true, nextGen: id*100 + 1}
+	h := &histRunner{c: c, id: id, ops: ops, ok: true, nextGen: id*100 + 1, plainOnly: id%5 == 4}
+	if h.plainOnly {
+		c.Count("histories_without_graceful_servers", 1)
+	}
 	h.ports = lib.FreePorts(8)
 	occ, err := net.Listen("tcp", "127.0.0.1:0")
 	if err != nil {
@@ -584,12 +595,14 @@ func runHistory(c *lib.Ctx, id int, ops []string) {
 			h.before(evs, "old restart callback before anything of the new instance", first(evs, old.Gen, "restart"), firstNew)
 			h.before(evs, "startup before the new instance accepts connections", first(evs, nc.Gen, "startup"), first(evs, nc.Gen, "serve-begin"))
 			h.before(evs, "old servers stopped before old shutdown callbacks", last(evs, old.Gen, "stop"), first(evs, old.Gen, "shutdown"))
-			if count(evs, old.Gen, "stop") == 0 {
-				h.viol("C16/old-instance-not-stopped", "successful reload did not stop the old instance's graceful servers")
-			}
-			// the stable address must have been inherited, not listened again
-			if count(evs, nc.Gen, "inherit") == 0 {
-				h.viol("C16/listener-not-inherited", "reload did not hand the listener of the stable address over")
+			if !h.plainOnly {
+				if count(evs, old.Gen, "stop") == 0 {
+					h.viol("C16/old-instance-not-stopped", "successful reload did not stop the old instance's graceful servers")
+				}
+				// the stable address must have been inherited, not listened again
+				if count(evs, nc.Gen, "inherit") == 0 {
+					h.viol("C16/listener-not-inherited", "reload did not hand the listener of the stable address over")
+				}
 			}
 			h.c.Count("reloads_ok", 1)
 		case strings.HasPrefix(op, "reload-fail@"):
@@ -619,7 +632,11 @@ func runHistory(c *lib.Ctx, id int, ops []string) {
 			if count(evs, old.Gen, "stop") > 0 || count(evs, old.Gen, "serve-end") > 0 {
 				h.viol("C16/old-instance-touched-by-failed-reload", "failed reload stopped servers of the old instance")
 			}
-			if !probe(fmt.Sprintf("127.0.0.1:%d", h.ports[0])) {
+			probePort := h.ports[0]
+			if h.plainOnly {
+				probePort = h.ports[old.Gen%8]
+			}
+			if !probe(fmt.Sprintf("127.0.0.1:%d", probePort)) {
 				h.viol("C16/old-instance-touched-by-failed-reload", "old instance no longer accepts connections after a failed reload")
 			}
 			h.c.Count("reloads_failed", 1)
